@@ -8,6 +8,7 @@ pub mod c02;
 pub mod c19;
 pub mod c01_glwe;
 pub mod c03_ks;
+pub mod c04_ep;
 pub mod c19_enc;
 pub mod core_frame;
 pub mod c18_core;
